@@ -1,7 +1,9 @@
 """C22 — `@csv` / `@dsv(d)` output reads back through `--input-dsv d`.
 
 Space (exhaustive): arrays of length 1..3 over an 18-string alphabet (+ the
-delimiter itself) and length-20 arrays, × `@csv` and `@dsv(d)` for every
+delimiter itself), length-20 arrays, and a scale family of long fields (lengths
+around the 16/32/64/128-byte chunk sizes of the vectorised index builders) before,
+after and between short fields, × `@csv` and `@dsv(d)` for every
 printable ASCII delimiter d != '"'. Per delimiter one batch job formats all
 arrays with -r, a second feeds those bytes to `--input-dsv d -c .`; rows must
 equal the arrays. A mismatching batch is re-run array by array to localise and
@@ -23,6 +25,14 @@ def arrays_for(d, tier):
     arrs += [[s] * 20 for s in al]
     if tier == "thorough":
         arrs += [[d, a, d] for a in al] + [[a + d + b] for a in al[:9] for b in al[:9]]
+    # Scale family: rows longer than the 16/32/64-byte chunks of the vectorised DSV index builders, with long
+    # stretches free of delimiter / quote / low bytes (a 64-byte block holding an odd number of quotes and nothing
+    # else special is what a chunk-skipping engine gets wrong), placed before, after and between short fields.
+    ns = (62, 63, 64, 70, 127) if tier == "quick" else (15, 16, 17, 31, 32, 33, 61, 62, 63, 64, 65, 66, 70, 126, 127, 128, 129, 130, 200)
+    longs = ["a" * n for n in ns] + ["é" * 33, "a" * 62 + '"', 'a"' * 35, "a" * 63 + d, "a" * 70 + "\n" + "b" * 70]
+    shorts = al[:k]
+    arrs += [[L] for L in longs] + [[L, b] for L in longs for b in shorts] + [[b, L] for L in longs for b in shorts]
+    arrs += [[L, M] for L in longs[:5] for M in longs[:5]] + [[b, L, c] for L in longs[:3] for b in shorts[:6] for c in shorts[:6]]
     return arrs
 
 
